@@ -20,6 +20,8 @@ TEXT = {
                           "the full path returns false with no call at all",
     "C07.writers": "taskLinks / taskBounds are written only by PlanT::{linkTask, remove, clearTasks} and PlanDataT::clear; tasks (emplace / remove / clear) only by "
                    "PlanT / PayloadPlanT::append, PlanT::remove and PlanDataT::clear",
+    "C07.attribution": "tasks stay attributed to the region whose callback planned them: every C_/O_ member that opens a region scope opens it before the head or "
+                       "the sub-states receive the control, and the scope objects save / restore the control's own values (shared instances of C06.scope)",
     "C07.link": "PlanT::linkTask: index == INVALID -> false, no write; empty plan -> first := last := index; else taskLinks[last].next := index, "
                 "taskLinks[index].prev := last (the *old* tail), then last := index",
     "C07.remove": "PlanT::remove: (prev valid ? taskLinks[prev].next : bounds.first) := link.next; (next valid ? taskLinks[next].prev : bounds.last) := link.prev; "
@@ -28,7 +30,7 @@ TEXT = {
     "C07.iterators": "CPlanT::Iterator, PlanT::CIterator and PlanT::Iterator agree on operator bool, operator++ and next() (pattern-level normal form)",
     "C07.reset": "clear() of TaskListT / DynamicArrayT / TaskStatus assigns every scalar field the value of its default member initialiser",
 }
-MIN_INSTANCES = {"C07.capacity-guard": 1, "C07.writers": 4, "C07.link": 1, "C07.remove": 1, "C07.clear": 1, "C07.iterators": 3, "C07.reset": 1}
+MIN_INSTANCES = {"C07.attribution": 10, "C07.capacity-guard": 1, "C07.writers": 4, "C07.link": 1, "C07.remove": 1, "C07.clear": 1, "C07.iterators": 3, "C07.reset": 1}
 
 
 def declare(ctx):
@@ -47,6 +49,8 @@ def check(ctx, F):
         ctx.note("unit %s compiled without PLANS" % F.label)
         return
     check_capacity(ctx, F)
+    from . import C06, C03
+    C06.check_scope(C03._Alias(ctx, {"C06.scope": "C07.attribution"}), F)
     check_writers(ctx, F)
     check_link(ctx, F)
     check_remove(ctx, F)
@@ -108,6 +112,9 @@ ALLOWED = {
     "taskLinks": {("PlanT", "linkTask"), ("PlanT", "remove"), ("PlanT", "clearTasks"), ("PlanDataT", "clear")},
     "tasksBounds": {("PlanT", "linkTask"), ("PlanT", "remove"), ("PlanT", "clearTasks"), ("PlanDataT", "clear")},
     "tasks": {("PlanT", "append"), ("PayloadPlanT", "append"), ("PlanT", "remove"), ("PlanDataT", "clear")},
+    # the "this region owns a plan" bit: set when a task is appended; dropped only with the whole plan data (deactivation / load).  A plan that
+    # runs out of tasks - by execution, remove() or clear() - still owns its results: with the bit gone they are no longer routed to the head
+    "planExists": {("PlanT", "append"), ("PayloadPlanT", "append"), ("PlanDataT", "clear")},
 }
 
 
@@ -116,7 +123,7 @@ def check_writers(ctx, F):
     for fid, b in F.bodies.items():
         if not b["inst"] or b.get("cls") not in ("PlanT", "PayloadPlanT", "CPlanT", "PlanDataT", "FullControlT", "FullControlBaseT", "PlanControlT", "R_", "S_", "C_", "O_"):
             continue
-        if not ({"taskLinks", "taskBounds", "tasks", "_bounds"} & set(b.get("mems", ()))):
+        if not ({"taskLinks", "taskBounds", "tasks", "_bounds", "planExists"} & set(b.get("mems", ()))):
             continue
         written = set()
         for p in paths_of(ctx, F, fid):
@@ -133,6 +140,8 @@ def check_writers(ctx, F):
                         written.add("tasks")
                     if not cf.get("const") and cf["name"] in ("clear", "fill") and re.search(r"\.(taskLinks|taskBounds)$", obj):
                         written.add("taskLinks" if obj.endswith("taskLinks") else "tasksBounds")
+                    if not cf.get("const") and cf["name"] in ("set", "clear", "fill") and re.search(r"\.planExists$", obj):
+                        written.add("planExists")
         for f in written:
             site = "%s/%s::%s" % (f, b["cls"], b["name"])
             ctx.instance("C07.writers", site, {"field": f, "writer": site_str(F, fid), "loc": F.floc(fid)})
